@@ -1044,6 +1044,14 @@ def evaluate(t, env, memo=None):
             r = format(v, evaluate(t.args[1], env, memo))
         elif op == "str":
             r = str(evaluate(t.args[0], env, memo))
+        elif op == "strdecode" and t.args:
+            # str(bytes, encoding[, errors]) / bytes.decode(...): the decoding error policy is part of the behaviour
+            pos = [evaluate(a, env, memo) for a in t.args[1:] if not (isinstance(a, Op) and a.op == "kv")]
+            kw = {evaluate(a.args[0], env, memo): evaluate(a.args[1], env, memo) for a in t.args[1:] if isinstance(a, Op) and a.op == "kv"}
+            b = evaluate(t.args[0], env, memo)
+            if not isinstance(b, (bytes, bytearray, memoryview)):
+                raise CannotEval(repr(t)[:120])
+            r = str(bytes(b), *pos, **kw)        # may raise UnicodeDecodeError: callers decide what that means
         elif op == "hex":
             r = hex(evaluate(t.args[0], env, memo))
         elif op == "chr":
@@ -1070,8 +1078,13 @@ def evaluate(t, env, memo=None):
             if not isinstance(recv, (str, bytes, int, bytearray)) or isinstance(recv, bool):
                 raise CannotEval(repr(t)[:120])
             try:
-                r = getattr(recv, op[2:])(*pos[1:], **kw)
+                if op == "m:tobytes" and isinstance(recv, (bytes, bytearray)):
+                    r = bytes(recv)          # memoryview.tobytes() of the sample bytes
+                else:
+                    r = getattr(recv, op[2:])(*pos[1:], **kw)
             except CannotEval:
+                raise
+            except UnicodeError:
                 raise
             except Exception as e:
                 raise CannotEval("%s raises %s" % (repr(t)[:80], type(e).__name__))
@@ -1124,6 +1137,27 @@ def evaluate(t, env, memo=None):
             r = b[i]
         elif op == "int" and len(t.args) == 1:
             r = int(evaluate(t.args[0], env, memo))
+        elif op in ("bytes", "bytearray", "memoryview") and len(t.args) == 1:
+            v_ = evaluate(t.args[0], env, memo)
+            if not isinstance(v_, (bytes, bytearray, memoryview, list, tuple, int)):
+                raise CannotEval(repr(t)[:120])
+            r = bytes(v_)
+        elif op == "rangelen" and len(t.args) == 3:
+            r = len(range(*[evaluate(a, env, memo) for a in t.args]))
+        elif op == "strmul" and len(t.args) == 2:
+            a_, b_ = evaluate(t.args[0], env, memo), evaluate(t.args[1], env, memo)
+            r = a_ * b_
+        elif op == "enumerate":
+            r = list(enumerate(evaluate(t.args[0], env, memo), *[evaluate(a, env, memo) for a in t.args[1:]]))
+        elif op == "zip":
+            r = list(zip(*[evaluate(a, env, memo) for a in t.args]))
+        elif op == "range":
+            r = range(*[evaluate(a, env, memo) for a in t.args])
+        elif op == "ceil" and len(t.args) == 1:
+            import math as _math
+            r = _math.ceil(evaluate(t.args[0], env, memo))
+        elif op == "truediv" and len(t.args) == 2:
+            r = evaluate(t.args[0], env, memo) / evaluate(t.args[1], env, memo)
         elif op == "dictget" and len(t.args) == 3:
             d, key = evaluate(t.args[0], env, memo), evaluate(t.args[1], env, memo)
             if not isinstance(d, dict):
